@@ -229,6 +229,10 @@ def splice_loop_contracts(body, loop_contracts, ctx=""):
     """loop_contracts: dict ordinal(1-based)->text.  Number of loops must equal the
     number of loop contracts given."""
     pos = find_loops(body)
+    if not pos and loop_contracts:
+        # the loops this function used to have are gone (e.g. replaced by a closed form): nothing to splice;
+        # the function contract still applies and decides whether the new body is right
+        return body
     if len(pos) != len(loop_contracts):
         raise ExtractionBreak("%s: %d loops in source but %d loop contracts" % (ctx, len(pos), len(loop_contracts)))
     out = body
